@@ -44,6 +44,14 @@ def gen_cases(tier, rng):
                                 cases.append("aidx%s %s %s %d %s %d" % (cfg, where, elk, ln, ik, n))
                                 if ik in ("int", "ullong", "schar") and n in (-1, 0, ln - 1, ln, (1 << 32) + ln - 1):
                                     cases.append("aidx%s %s %s %d %s %d tainted" % (cfg, where, elk, ln, ik, n))
+                                # the index is an integer in sandbox memory (table[hdr->idx]); with watch:<evil> the sandbox
+                                # rewrites it to <evil> before any second read of it (read-notification hook): the bounds
+                                # check and the element address must come from ONE fetch
+                                if ik in ("int", "uint", "ullong", "short", "uchar") and n in (-1, 0, ln - 1, ln):
+                                    cases.append("aidx%s %s %s %d %s %d cell" % (cfg, where, elk, ln, ik, n))
+                                    for evil in (ln + 4, 0, hi(ik)):
+                                        if evil != n and fits(ik, evil):
+                                            cases.append("aidx%s %s %s %d %s %d watch:%d" % (cfg, where, elk, ln, ik, n, evil))
             for shape, (d1, d2) in {"l23": (2, 3), "i32": (3, 2), "p24": (2, 4)}.items():
                 for ik in ("int", "uint", "long", "ullong", "schar", "uchar"):
                     for i in (-1, 0, d1 - 1, d1, 2 * d1 - 1, hi(ik)):
@@ -64,7 +72,7 @@ def NONTRIVIAL(case, model, cls):
 
 
 RULE = ("{application-memory array, sandbox-memory array} x element types {char short int long ullong pointer} x lengths {1,2,3,4,7,16} x "
-        "11 index kinds (+ tainted indices) x n in {-1,0,1,len-1,len,len+1,2len-1,2len,type min/max, len-1+2^8, len-1+2^16, len-1+2^32, 2^63+len-1,...}; "
+        "11 index kinds (+ tainted indices, + indices held in sandbox memory with an adversary that rewrites the cell before any second read) x n in {-1,0,1,len-1,len,len+1,2len-1,2len,type min/max, len-1+2^8, len-1+2^16, len-1+2^32, 2^63+len-1,...}; "
         "2-D shapes long[2][3], int[3][2], int*[2][4]; reported: element offset under the layout of the memory the array lives in")
 TRUSTED = ["model coq/Ptr.v arr_index hand-written; tied by differential correspondence",
            "M3 (array operator[]): harness/m3_ptr.py translator from clang 14's JSON AST; assumed of the nodes it treats as transparent: detail::unwrap_value of a plain integer is that integer, "
